@@ -107,7 +107,7 @@ class FunctionGates(Harness):
         names = {'m': 'm', 'radian': 'radian', 's': 's'}
         dx = {names[k]: e for k, e in conc_dim(inputs, 'dx', U).items()}
         dy = {names[k]: e for k, e in conc_dim(inputs, 'dy', U).items()}
-        return qty_text(x, dx), qty_text(y if y != 0 else Fraction(1), dy), dx, dy
+        return qty_text(x, dx), qty_text(y, dy), dx, dy
 
     def native(self, inputs, label):
         f = inputs['f'].lower()
